@@ -174,10 +174,10 @@ def run_case(kind, params):
     for i, p in enumerate(peaks):
         want = spec_window(fr, c, p)
         for be, r in res.items():
-            if not np.array_equal(r[i], want):
+            if not np.array_equal(r[i], want, equal_nan=(fr.dtype.kind == "f")):
                 msgs.append(f"{be} back-end, frame {fr.shape}, c={c}, peak {p}: got "
                             f"{r[i].tolist()} expected {want.tolist()}")
-    if len(res) == 2 and not np.array_equal(res["pixel"], res["slicing"]):
+    if len(res) == 2 and not np.array_equal(res["pixel"], res["slicing"], equal_nan=(fr.dtype.kind == "f")):
         msgs.append("the two back-ends disagree")
     return msgs[:6]
 
@@ -206,6 +206,16 @@ def search(ctx, boost=1, focus=()):
                  for _ in range(npk)]
         if k % 7 == 0:
             peaks.append((-3 * c, -3 * c))  # entirely outside
+        if k % 6 == 4 and (k // 6) % 2 == 0:
+            # float frames with inf / -inf / NaN, also in the outermost rows and columns
+            fr = rng.normal(0, 100, (fy, fx))
+            for _ in range(int(rng.integers(1, 6))):
+                yy = int(rng.choice([0, fy - 1, int(rng.integers(0, fy))]))
+                xx = int(rng.choice([0, fx - 1, int(rng.integers(0, fx))]))
+                fr[yy, xx] = [np.inf, -np.inf, np.nan][int(rng.integers(3))]
+            cases.append({"frame": fr, "c": c, "peaks": peaks, "dtype": ["float32", "float64"][(k // 12) % 2], "sparse": False})
+            ctx.count("non_finite")
+            continue
         if k % 6 == 5:
             # values over the whole range of an integer dtype (the crop is a copy: every value comes back exactly)
             xdt = np.dtype(("uint64", "int64", "uint8", "int8", "uint32", "int16")[(k // 6) % 6])
